@@ -10,7 +10,7 @@ def _c03_driver():
     sp = importlib.util.spec_from_file_location("c03props", os.path.join(os.path.dirname(os.path.abspath(__file__)), "C03.py"))
     m = importlib.util.module_from_spec(sp)
     sp.loader.exec_module(m)
-    d = dict(m.PROP["drivers"][0])
+    d = dict([x for x in m.PROP["drivers"] if x["cmd"] == "drv-wakeup"][0])
     d["variant"] = "wakeup"
     d["sites"] = [".*"]
     return d
